@@ -21,6 +21,15 @@ func Witnesses(prop string) []*History {
 			{Profile: "witness:lister-empty-bytes", Cfg: Cfg{Key: "k", Desc: true}, Vals: []string{"{k:0}", "{k:-1}", "{k:null}", "{k:7}"}, Keys: []string{"i0", "i-1", "n", "i7"},
 				Ops: []Op{{Kind: "load", Vals: []int{0}}, {Kind: "load", Vals: []int{1, 2}}, {Kind: "load", Vals: []int{3}}, {Kind: "load", Vals: []int{3}},
 					{Kind: "load", Vals: []int{3}}, {Kind: "load", Vals: []int{3}}, {Kind: "load", Vals: []int{3}}, {Kind: "load", Vals: []int{3}}}},
+			// nine objects with range starts null / "" / 0 (all empty bytes) compacted: the compaction
+			// reads them in lister order and, in about one run in five, writes an object holding
+			// missing null "" "" | missing missing null … (finding lister-order:empty-bytes-key:compact)
+			{Profile: "witness:compact-empty-bytes", Cfg: Cfg{Key: "k", Desc: true},
+				Vals: []string{"{v:14}", "{k:null,v:11}", "{k:null(int64),v:7}", "{k:\"\",v:3}", "{k:0,v:2}", "{k:-1,v:3}", "{k:5,v:1}"},
+				Keys: []string{"n", "n", "n", "s-", "i0", "i-1", "i5"},
+				Ops: []Op{{Kind: "load", Vals: []int{0, 0, 1, 2, 3, 4, 4, 5, 5}}, {Kind: "load", Vals: []int{0, 3}}, {Kind: "load", Vals: []int{2, 3}},
+					{Kind: "load", Vals: []int{3, 5}}, {Kind: "load", Vals: []int{6}}, {Kind: "load", Vals: []int{4, 4}}, {Kind: "load", Vals: []int{5}},
+					{Kind: "load", Vals: []int{4, 4}}, {Kind: "load", Vals: []int{4}}, {Kind: "compact", IDs: []int{1, 2, 3, 4, 5, 6, 7, 8, 9}}}},
 			{Profile: "witness:this-key", Cfg: Cfg{Key: "this"}, Vals: []string{"0", "-1", "3"}, Keys: []string{"i0", "i-1", "i3"},
 				Ops: []Op{{Kind: "load", Vals: []int{2, 0, 1}}}},
 			{Profile: "witness:typed-null", Cfg: k, Vals: []string{"{k:null(int64),v:1}", "{k:5,v:2}"}, Keys: []string{"n", "i5"},
